@@ -95,6 +95,8 @@ def check(case):
     # mutation oracle
     v = (case.get("params") or {}).get("v") or {}
     for name, vdesc in v.items():
+        if isinstance(vdesc, list) and vdesc[:1] == ["itemref"]:
+            continue  # (one of the items: covered by the comparison of the source's items below)
         if isinstance(vdesc, dict):
             fresh = {k: sig(mat(d)) for k, d in vdesc.items()}
             now = {k: sig(x) for k, x in ba.V[name].items()}
@@ -240,6 +242,17 @@ def shards(tier):
              for name in ("nlargest", "nsmallest", "sorted", "min", "max", "reduce", "sum")]
     large += [Shard(f"big-numbers-{i}", check, strategy=big_number_cases(), n=15, nontrivial=lambda c: True,
                     thorough_mult=8) for i in range(2)]
+    from ..native import native_cases, AGGREGATIONS
+    from .c01 import check_native
+
+    def check_native_agg(case):
+        try:
+            return check_native(case)
+        except Violation as v:
+            raise Violation(v.bucket.replace("C01/", "C02/", 1), v.detail) from None
+
+    large.append(Shard("native-sources", check_native_agg, strategy=native_cases(list(AGGREGATIONS)), n=1500,
+                       nontrivial=lambda c: sum(len(d) for d in c["data"]) >= 2, thorough_mult=15))
     large.append(Shard("range-sources", check_range, strategy=range_cases(), n=800,
                        nontrivial=lambda c: len(range(*c["r"])) >= 2, thorough_mult=10))
     return large + [
